@@ -43,6 +43,52 @@ def c03Check : Handler := fun j => do
     pure (Json.bool (inhabits tenv 64 (refTy env t) doc))
   return Json.mkObj [("inhabits", Json.arr res.toArray)]
 
+/-- a TypeScript type sent by the harness (parsed from the real text) -/
+partial def decTsType (j : Json) : Except String TsType := do
+  match getStrD j "k" with
+  | "str" => pure .str
+  | "num" => pure .num
+  | "bool" => pure .bool
+  | "null" => pure .null
+  | "unknown" => pure .unknown
+  | "never" => pure .never
+  | "litStr" => pure (.litStr (getStrD j "s"))
+  | "litNum" => pure (.litNum (getStrD j "s"))
+  | "litBool" => pure (.litBool (getBoolD j "b"))
+  | "arr" => do pure (.arr (← decTsType (← getObj j "e")))
+  | "tuple" => do pure (.tuple (← (getListD j "es").mapM decTsType))
+  | "record" => do pure (.record (← decTsType (← getObj j "key")) (← decTsType (← getObj j "v")))
+  | "union" => do pure (.union (← (getListD j "ts").mapM decTsType))
+  | "obj" => do
+    let fs ← (getListD j "fields").mapM fun f => do
+      match f with
+      | .arr #[k, t] => do pure ((k.getStr?).toOption.getD "?", ← decTsType t)
+      | _ => throw "bad object field"
+    pure (.obj fs)
+  | "ref" => pure (.ref (getStrD j "name"))
+  | "brand" => do pure (.brand (← decTsType (← getObj j "base")) (getStrD j "tag"))
+  | k => throw ("bad TypeScript type kind " ++ k)
+
+/-- op `c03.checkReal`: the documents checked against the type environment DECLARED BY THE REAL TEXT
+(parsed by the harness), the root being the name the model says the Go type is referred to by -/
+def c03CheckReal : Handler := fun j => do
+  let env ← decEnv (← getObj j "env")
+  let tenv ← (getListD j "tenv").mapM fun e => do
+    match e with
+    | .arr #[n, t] => do pure ((n.getStr?).toOption.getD "?", ← decTsType t)
+    | _ => throw "bad environment entry"
+  let res ← (getListD j "values").mapM fun x => do
+    let t ← decTy (← getObj x "type")
+    let doc ← match x.getObjVal? "doc" with
+      | .ok d => pure (jsonToJVal d)
+      | .error _ => throw "no document"
+    pure (Json.bool (inhabits tenv 64 (refTy env t) doc))
+  -- the names declared twice, and the names mentioned but not declared, in the real environment
+  let names := tenv.map (·.1)
+  let dup := names.filter fun n => (names.filter (· == n)).length > 1
+  let missing := (tenv.flatMap fun (_, t) => tyNames t).filter fun n => !names.contains n
+  return Json.mkObj [("inhabits", Json.arr res.toArray), ("duplicates", strs dup.eraseDups), ("undeclared", strs missing.eraseDups)]
+
 /-- op `c03.fragment`: is the program inside the fragment of the end-to-end theorem
 (`Props/C03E2E.lean`), and are the dumped values well-typed in the sense of its hypothesis? -/
 def c03Fragment : Handler := fun j => do
